@@ -251,6 +251,11 @@ CONTRACTS.update({
             'forall(lambda x, y: ((x, y) in self.edgeset) == (((x, y) in old(self.edgeset)) or (x == u and y == v)))',
             'implies((u, v) in old(self.edgeset), self.ladj == old(self.ladj) and self.radj == old(self.radj) and self.edgeset == old(self.edgeset))',
             'card2(self.edgeset) == card2(old(self.edgeset)) + ite((u, v) in old(self.edgeset), 0, 1)',
+            # the row of u grows by exactly one entry for a new edge; every other left row is untouched (degrees)
+            'implies(not ((u, v) in old(self.edgeset)), (u in self.ladj) and '
+            'len(self.ladj[u]) == ite(u in old(self.ladj), len(old(self.ladj)[u]), 0) + 1)',
+            'forall(lambda x: implies(x != u, ((x in self.ladj) == (x in old(self.ladj))) and '
+            'implies(x in self.ladj, len(self.ladj[x]) == len(old(self.ladj)[x]))))',
         ] + B_INV,
     },
     (G, 'BipartiteGraphRep.number_of_edges'): {
@@ -335,3 +340,30 @@ CONTRACTS[(G, 'DirectedGraphRep.add_edges_from')] = _edges_from(
 CONTRACTS[(G, 'BipartiteGraphRep.add_edges_from')] = _edges_from(
     'BipartiteGraphRep', B_INV, '1 <= {a} and {a} <= self.lorder and 1 <= {b} and {b} <= self.rorder',
     ['ladj', 'radj', 'edgeset', 'idxl', 'idxr'])
+
+# glrd: every left vertex gets exactly min(r, d) neighbours, for every outcome of the random generator
+_GI = [c.replace('self.', 'G.') for c in B_INV]
+CONTRACTS[(G, 'bipartite_random_left_regular')] = {
+    'property': ['C15'],
+    'params': {'l': 'int', 'r': 'int', 'd': 'int', 'seed': 'none'},
+    'calls_model': {'BipartiteGraph': 'BipartiteGraphRep'},
+    'raises': {'ValueError': 'l < 0 or r < 0 or d < 0'},
+    'loops': {
+        0: {'counter': '_ito',
+            'inv': ['G.lorder == l', 'G.rorder == r', 'd >= 0', 'd <= r',
+                    # the rows of the vertices done have d entries; no edge at any later vertex yet
+                    'forall(lambda x: implies(1 <= x and x <= _ito, ite(x in G.ladj, len(G.ladj[x]), 0) == d))',
+                    'forall(lambda x, w: implies((x, w) in G.edgeset, x <= _ito))'] + _GI,
+            'modifies_objects': ['G'], 'modifies_fields': {'G': ['ladj', 'radj', 'edgeset', 'idxl', 'idxr']}},
+        1: {'inv': ['G.lorder == l', 'G.rorder == r', 'd >= 0', 'd <= r',
+                    'forall(lambda x: implies(1 <= x and x <= _ito, ite(x in G.ladj, len(G.ladj[x]), 0) == d))',
+                    'forall(lambda x, w: implies((x, w) in G.edgeset, x <= _ito + 1))',
+                    # the row of the current vertex has one entry per sampled neighbour so far, all below the next one
+                    'ite(u in G.ladj, len(G.ladj[u]), 0) == _it',
+                    'forall(lambda w: implies((u, w) in G.edgeset, _it >= 1 and w <= _iter[_it - 1]))'] + _GI,
+            'modifies_objects': ['G'], 'modifies_fields': {'G': ['ladj', 'radj', 'edgeset', 'idxl', 'idxr']}},
+    },
+    'ensures': ['result.lorder == l', 'result.rorder == r',
+                'forall(lambda x: implies(1 <= x and x <= l, ite(x in result.ladj, len(result.ladj[x]), 0) == zmin(r, d)))']
+               + [c.replace('self.', 'result.') for c in B_INV],
+}
